@@ -78,13 +78,21 @@ def run_soup(case):
 @st.composite
 def wf_cases(draw, tier):
     kind = draw(st.sampled_from(RT.KINDS))
-    spec = draw(GX.wide_text_specs(kind)) if draw(st.integers(0, 9)) == 0 else draw(GX.text_specs(kind, max_states=4))
+    k = draw(st.integers(0, 11))
+    if k == 11:
+        kind = draw(st.sampled_from(["dfa", "dfa", "nfa"]))
+        spec = draw(GX.multichar_symbol_specs(kind))
+    else:
+        spec = draw(GX.wide_text_specs(kind)) if k == 0 else draw(GX.text_specs(kind, max_states=4))
     return {"kind": kind, "spec": spec, "layout": draw(GX.layouts(kind, spec))}
 
 
 @st.composite
 def corrupt_cases(draw, tier):
     kind = draw(st.sampled_from(RT.KINDS))
+    if draw(st.integers(0, 14)) == 0:
+        kind = draw(st.sampled_from(["dfa", "nfa"]))
+        return {"kind": kind, "spec": draw(GX.multichar_symbol_specs(kind))}
     return {"kind": kind, "spec": draw(GX.text_specs(kind, max_states=3))}
 
 
